@@ -234,10 +234,11 @@ def convention_obligations(ck, rules, tm, want=lambda r: True):
         sim = r.sim
         mn = mnemonics(sim)
         stub = r.repl is None and r.role == "trampoline"
-        allowed_mn = {"x86_64": {"jmp_rel", "jmp_reg", "mov_imm", "nop"} | ({"ret"} if stub else set()),
-                      "aarch64": {"b", "br", "movz", "movk", "nop", "adrp", "add_imm"} | ({"ret"} if stub else set()),
+        allowed_mn = {"x86_64": {"jmp_rel", "jmp_reg", "jmp_mem_rip", "mov_imm", "nop"} | ({"ret"} if stub else set()),
+                      "aarch64": {"b", "br", "movz", "movk", "nop", "adrp", "add_imm", "ldr_lit"} | ({"ret"} if stub else set()),
                       "arm": {"nop", "ldr_lit", "bx", "mov_reg"}}[tm.arch]
-        ins = sim.get("executed") if isinstance(sim.get("executed"), list) else sim["ins"]
+        ex_ = sim.get("executed")
+        ins = ex_ if isinstance(ex_, list) else (sim["ins"][:ex_] if isinstance(ex_, int) else sim["ins"])     # what runs, not what follows the branch
         used = [i["mn"] for i in ins]
         bad = [u for u in used if u not in allowed_mn]
         ok1 = not bad and not sim.get("stack") and not sim.get("calls")
@@ -258,7 +259,7 @@ def convention_obligations(ck, rules, tm, want=lambda r: True):
         t = sim["transfer"]
         if t and t["kind"] in ("jmp_reg", "br", "bx"):
             reg = t["reg"]
-            ck.ob(rules[2], "%s/%s%s/%s/load-branch-register" % (tm.arch, rn, cname, r.role), tm.target, reg in wr,
+            ck.ob(rules[2], "%s/%s%s/%s/load-branch-register" % (tm.arch, rn, cname, r.role), tm.target, reg in wr or reg == "pc" or reg.startswith("[rip"),
                   "branch through %s; registers loaded by the sequence: %s" % (reg, sorted(wr)), where(r.ev))
     return n
 
